@@ -367,7 +367,12 @@ pub fn run_jobs(profile: &str, jobs: &[Job], watchdog: Duration) -> Result<Vec<J
         let mut current: Option<usize> = None;
         let mut hung = false;
         loop {
-            match rx.recv_timeout(watchdog) {
+            // the prefix-only jobs rest on a premise about entry order that a legitimate
+            // change may break (then their first calls are an astronomically long blocked
+            // run): a short limit, and exceeding it is inconclusive, never a verdict
+            let soft = jobs.get(next).map(|j| j.consumer == CONSUMER_PREFIX).unwrap_or(false);
+            let limit = if soft { Duration::from_secs(20).min(watchdog) } else { watchdog };
+            match rx.recv_timeout(limit) {
                 Ok(l) => {
                     let parts: Vec<&str> = l.splitn(5, ' ').collect();
                     if parts[0] == "START" && parts.len() >= 2 {
@@ -397,7 +402,10 @@ pub fn run_jobs(profile: &str, jobs: &[Job], watchdog: Duration) -> Result<Vec<J
             break;
         }
         // the child ended with jobs left: the one in flight is the casualty
-        let outcome = if hung {
+        let soft = jobs.get(next).map(|j| j.consumer == CONSUMER_PREFIX).unwrap_or(false);
+        let outcome = if hung && soft {
+            "inconclusive_slow".to_string()
+        } else if hung {
             "hang".to_string()
         } else {
             #[cfg(unix)]
@@ -438,6 +446,9 @@ pub fn judge(job: &Job, r: &JobResult) -> Option<(String, String)> {
                 format!("a player has an empty range but {} showdowns were yielded", r.yields),
             ));
         }
+        return None;
+    }
+    if o == "inconclusive_slow" {
         return None;
     }
     if o == "budget" {
@@ -892,6 +903,12 @@ fn blocked_run_lower_bound(job: &Job) -> u64 {
 fn minimise(profile: &str, job: &Job, okey: &str, watchdog: Duration) -> (Job, usize) {
     let mut best = job.clone();
     let mut tried = 0usize;
+    if okey == "hang" {
+        // every candidate would cost a full watchdog period: reported as found
+        return (best, 0);
+    }
+    // a candidate that does not finish quickly is simply not a smaller witness
+    let watchdog = watchdog.min(Duration::from_secs(30));
     let fails = |j: &Job, tried: &mut usize| -> bool {
         if *tried >= 60 {
             return false;
@@ -1082,6 +1099,9 @@ pub fn run(tier: &str) -> i32 {
                     _ => "258-1325",
                 };
                 ev.probe(&format!("range_size_class_{cls}"), 1);
+            }
+            if r.outcome == "inconclusive_slow" {
+                ev.probe("prefix_jobs_inconclusive_too_slow", 1);
             }
             match judge(j, r) {
                 None => ok += 1,
